@@ -138,10 +138,22 @@ PROPS = {
 OK_VERDICTS = {"ok", "ok-proj", "ok-err", "ok-diverges", "ok-crash", "skip-order"}
 
 
-def proj_sections(text, sep):
-    out = dict(pkg=[], imp=[], mock=[], tp=[], m=[], pname=[], ptype=[], ptype_unq=[], r=[], r_unq=[])
+def proj_sections(text, sep, names=None):
+    out = dict(pkg=[], imp=[], mock=[], tp=[], m=[], pname=[], ptype=[], ptype_unq=[], r=[], r_unq=[],
+               ptype_res=[], r_res=[], tp_res=[])
     cur = ""
-    for line in [" ".join(x.split()) for x in text.split(sep) if x.strip()]:
+    lines = [" ".join(x.split()) for x in text.split(sep) if x.strip()]
+    # qualifier -> import path, from this projection's own import block: types compared "as types"
+    table = {}
+    for raw in [x for x in text.split(sep) if x.strip()]:
+        m = re.match(r"\s*imp (\S*) (\S+)\s*$", raw) or re.match(r"\s*imp ()(\S+)\s*$", raw)
+        if m:
+            alias, path = m.group(1), m.group(2)
+            table[alias or (names or {}).get(path) or path.rsplit("/", 1)[-1]] = path
+
+    def res(ty):
+        return re.sub(r"([A-Za-z_][A-Za-z0-9_]*)\.", lambda mm: "<%s>." % table.get(mm.group(1), "?" + mm.group(1)), ty)
+    for line in lines:
         f = line.split(" ")
         k = f[0]
         if k == "pkg":
@@ -153,6 +165,7 @@ def proj_sections(text, sep):
             out["mock"].append(line)
         elif k == "tp":
             out["tp"].append(cur + " " + line)
+            out["tp_res"].append(cur + " " + res(line))
         elif k == "m":
             cur_m = f[1] if len(f) > 1 else ""
             out["m"].append(cur + " " + line)
@@ -163,10 +176,12 @@ def proj_sections(text, sep):
             out["pname"].append(name)
             out["ptype"].append(ty)
             out["ptype_unq"].append(re.sub(r"[A-Za-z_][A-Za-z0-9_]*\.", "", ty))
+            out["ptype_res"].append(res(ty))
         elif k == "r":
             ty = f[1] if len(f) > 1 else ""
             out["r"].append(ty)
             out["r_unq"].append(re.sub(r"[A-Za-z_][A-Za-z0-9_]*\.", "", ty))
+            out["r_res"].append(res(ty))
     return out
 
 
@@ -174,8 +189,8 @@ def proj_sections(text, sep):
 RELEVANT_DIFF = {
     "C01": None,                                              # anything
     "C14": set(), "C16": set(), "C19": set(),                 # decided by their own oracles
-    "C02": {"m", "ptype_unq", "r_unq", "mock"},
-    "C09": {"tp", "ptype_unq", "r_unq"},
+    "C02": {"m", "ptype_res", "r_res", "mock"},                # types as types: qualifiers resolved to paths
+    "C09": {"tp", "ptype_res", "r_res"},
     "C10": {"pkg", "imp", "ptype", "r"},
     "C11": {"imp"},
     "C12": {"pname", "imp"},
@@ -188,7 +203,8 @@ def diff_kinds(cr):
     mp, op = cr.get("model_proj"), cr.get("observed_proj")
     if not mp or not op:
         return None
-    a, b = proj_sections(mp, ";;"), proj_sections(op, "\n")
+    names = cr.get("pkg_names") or {}
+    a, b = proj_sections(mp, ";;", names), proj_sections(op, "\n", names)
     return set(k for k in a if a[k] != b[k])
 
 
